@@ -88,23 +88,31 @@ def gate_rules(facts, rep, w, D):
     joins = [blk for blk in tr_fn.calls() if sname(blk.term.callee() or "") == "join"]
     n += 1
     rep.ob("R07.2", tr_fn.id, "translator joins onto the root", len(joins) >= 1, "%d join site(s)" % len(joins), tr_fn.span)
+    from ..panics import nguard as _ng
     for blk in joins:
         t = blk.term
         recv = norm(trt.operand(t.args[0]))
-        arg = norm(trt.operand(t.args[1]))
-        gs = D.guards(tr_fn, blk.idx)
-        sw = None
-        for g in gs:
-            if g[0] == "bool" and g[1][0] == "call" and g[1][1] == "str::starts_with" and g[1][2][1] == ("char", "/") and \
-                    g[1][2][0][0] == "arg" and g[1][2][0][1] == 1:
-                sw = g[2]
         okr = recv[0] == "field" and recv[2] == fname and recv[1][0] == "arg" and recv[1][1] == 0
-        stripped = arg[0] == "call" and arg[1] == "Index::index" and arg[2][0][0] == "arg" and arg[2][0][1] == 1 and \
-            arg[2][1][0] == "agg" and arg[2][1][1].endswith("RangeFrom") and dict(arg[2][1][3]).get("start") == ("int", 1)
-        raw = arg[0] == "arg" and arg[1] == 1
         n += 2
         rep.ob("R07.2", tr_fn.id, "join receiver is the root field", okr, fmt(recv)[:40], t.line)
-        ok = (stripped and sw is True) or (raw and sw is False)
+        # the joined string may be the value of an `if` expression (`let rel = if path.starts_with('/') { &path[1..] } else { path }`):
+        # every arm is judged under its own branch outcome
+        ok = True
+        arg, sw = ("undef",), None
+        for arg_raw, extra in trt.operand_cases(t.args[1]):
+            arg = norm(arg_raw)
+            gs = list(D.guards(tr_fn, blk.idx)) + [_ng(g) for g in extra]
+            sw = None
+            for g in gs:
+                if g[0] == "bool" and g[1][0] == "call" and g[1][1] == "str::starts_with" and g[1][2][1] == ("char", "/") and \
+                        g[1][2][0][0] == "arg" and g[1][2][0][1] == 1:
+                    sw = g[2]
+            stripped = arg[0] == "call" and arg[1] == "Index::index" and arg[2][0][0] == "arg" and arg[2][0][1] == 1 and \
+                arg[2][1][0] == "agg" and arg[2][1][1].endswith("RangeFrom") and dict(arg[2][1][3]).get("start") == ("int", 1)
+            raw = arg[0] == "arg" and arg[1] == 1
+            if not ((stripped and sw is True) or (raw and sw is False)):
+                ok = False
+                break
         rep.ob("R07.2", tr_fn.id, "joined string: stripped on the '/' edge, raw only on the other edge", ok, "" if ok else
                "the translator joins %s onto the root %s: an argument with a leading '/' restarts at the underlying root, "
                "escaping the altroot directory" % (fmt(arg)[:50], "under starts_with('/')=%s" % sw), t.line)
@@ -363,6 +371,24 @@ def physical_gate(facts, rep, w, D):
         rep.ob("R07.2", g.id, "joined string: stripped exactly when the argument starts with '/'", ok, "" if ok else
                "some path joins an argument that still has its leading '/' (PathBuf::join would replace the root) or strips "
                "a relative argument", t.line)
+    # R07.7 operations on the filesystem happen only inside the trait methods: the constructors and the translator of the physical
+    # backend compute a path and nothing else — `new` that creates its root ("a fresh data directory may not be there yet") also
+    # creates the root's missing ancestors, which lie outside the root, without any operation having been called
+    from .. import physrules as _ph7
+    for b7 in facts.bodies:
+        if b7.kind == "Closure" or not b7.impl or b7.impl["self_ty"] != w.physical or b7.impl.get("trait") or b7.impl.get("derived"):
+            continue
+        eff = []
+        for cb7 in inter.code_bodies(b7):
+            for s7 in inter.sites(cb7):
+                if s7.short in _ph7.EFFECTS or (s7.path or "").startswith("filetime::") or \
+                        (s7.short.split("::")[0] in ("fs", "File", "OpenOptions", "DirBuilder") and s7.short not in ("OpenOptions::new",)):
+                    eff.append((s7.short, s7.line))
+        n += 1
+        rep.ob("R07.7", b7.id, "inherent function of the physical backend performs no OS operation", not eff, "" if not eff else
+               "%s calls %s: the host filesystem is touched (possibly outside the root) without an operation of the API having been "
+               "called on a path" % (b7.name, eff[0][0]), eff[0][1] if eff else b7.span)
+
     return n
 
 
